@@ -31,6 +31,14 @@ class Obligation:
         return tm.smt_script(self.assumptions, tm.Not(self.goal))
 
 
+class LostUnit(Obligation):
+    """Stands for ONE unit whose obligations could not be generated (lost anchor / source left the subset): undecided, never an alarm.
+    The other units of the check, and its bounded stand-ins on the real code, still run."""
+    def __init__(self, name, reason, unit):
+        Obligation.__init__(self, name, [], tm.TRUE, unit)
+        self.reason = reason
+
+
 def _run_one(solver, path, timeout):
     t0 = time.time()
     try:
@@ -122,6 +130,9 @@ def parse_model(text):
 
 def discharge(ob, tier="quick", default_timeout=60):
     """Run one obligation. status ∈ discharged / refuted / undecided (or vacuity-ok / vacuous)."""
+    if isinstance(ob, LostUnit):
+        ob.status, ob.output = "undecided", ob.reason
+        return ob
     if ob.optional and tier != "thorough":
         ob.status, ob.output = "undecided", "optional obligation: attempted in the thorough tier only"
         return ob
@@ -215,7 +226,7 @@ def discharge_all(obls, tier="quick", jobs=None, default_timeout=60):
     """Phase 1: exact polynomial normalisation (`ring`) in forked worker processes; phase 2: SMT solvers."""
     global _RING_OBS
     jobs = jobs or min(16, max(1, (os.cpu_count() or 4)))
-    cand = [o for o in obls if not o.expect_sat and not (o.optional and tier != "thorough") and "ring" not in (o.skip or ()) and (o.goal.op == "=" or o.goal.op == "and")]
+    cand = [o for o in obls if not isinstance(o, LostUnit) and not o.expect_sat and not (o.optional and tier != "thorough") and "ring" not in (o.skip or ()) and (o.goal.op == "=" or o.goal.op == "and")]
     if cand:
         import multiprocessing as mp
         _RING_OBS = cand
